@@ -11,8 +11,10 @@ package drive
 import (
 	"encoding/json"
 	"fmt"
+	"math"
 	"math/rand"
 	"os"
+	"strconv"
 	"strings"
 
 	"github.com/honeycombio/refinery/config"
@@ -91,7 +93,60 @@ func c08PickScalar(r *rand.Rand, forCond bool) rvVal {
 	}
 }
 
-func c08GenCond(r *rand.Rand, pool []rvVal) c08Cond {
+// c08Kin: the same or a neighbouring numeric value in another representation (int <-> float <->
+// decimal text), so that cross-type comparisons hit their equality and off-by-one boundaries.
+func c08Kin(r *rand.Rand, v rvVal) rvVal {
+	x := r.Intn(100)
+	if x < 45 {
+		return v
+	}
+	var n int64
+	switch v.K {
+	case "int", "i64":
+		n = v.I
+	case "f":
+		if v.F != math.Trunc(v.F) || math.Abs(v.F) > 1<<62 {
+			if x < 60 {
+				return rvVal{K: "s", S: fmt.Sprintf("%v", v.F)}
+			}
+			if x < 80 && math.Abs(v.F) < 1<<62 {
+				// the integers around it: int(1.5) must be 1, not 2
+				return rvVal{K: "int", I: int64(math.Floor(v.F)) + int64(r.Intn(2))}
+			}
+			return rvVal{K: "f", F: v.F + []float64{0.5, -0.5, 1, -1}[r.Intn(4)]}
+		}
+		n = int64(v.F)
+	case "s":
+		k, err := strconv.ParseInt(v.S, 10, 64)
+		if err != nil {
+			return v
+		}
+		n = k
+	default:
+		return v
+	}
+	if n > -1<<62 && n < 1<<62 {
+		n += []int64{0, 0, 0, 1, -1}[r.Intn(5)]
+	}
+	switch r.Intn(3) {
+	case 0:
+		return rvVal{K: "int", I: n}
+	case 1:
+		if f := float64(n); f != 0 || n == 0 {
+			return rvVal{K: "f", F: f}
+		}
+		return rvVal{K: "int", I: n}
+	default:
+		return rvVal{K: "s", S: strconv.FormatInt(n, 10)}
+	}
+}
+
+type c08Pooled struct {
+	F string
+	V rvVal
+}
+
+func c08GenCond(r *rand.Rand, pool []c08Pooled) c08Cond {
 	c := c08Cond{Op: c08Ops[r.Intn(len(c08Ops))], Dt: c08Dts[r.Intn(len(c08Dts))]}
 	if r.Intn(40) == 0 {
 		c.Op = "~="
@@ -131,13 +186,29 @@ func c08GenCond(r *rand.Rand, pool []rvVal) c08Cond {
 		return c
 	}
 	// the condition value: often a value that occurs in the trace, so that rules do match
+	aimed := false
 	pick := func() rvVal {
-		if len(pool) > 0 && r.Intn(100) < 55 {
-			v := pool[r.Intn(len(pool))]
+		if len(pool) > 0 && r.Intn(100) < 60 {
+			pv := pool[r.Intn(len(pool))]
+			// aim the condition at the field that holds this value (directly, through root., or
+			// as the last of several Fields) so that the comparison is really evaluated
+			if !aimed && c.Field != "?.NUM_DESCENDANTS" && r.Intn(100) < 75 {
+				aimed = true
+				f := pv.F
+				if r.Intn(4) == 0 {
+					f = "root." + f
+				}
+				if c.Field != "" && len(c.Fields) == 0 {
+					c.Field = f
+				} else if len(c.Fields) > 0 && c.Field == "" {
+					c.Fields[r.Intn(len(c.Fields))] = f
+				}
+			}
+			v := pv.V
 			if v.K == "arr" {
 				return rvVal{K: "s", S: "[1 2]"}
 			}
-			return v
+			return c08Kin(r, v)
 		}
 		return c08PickScalar(r, true)
 	}
@@ -171,17 +242,162 @@ func c08GenCond(r *rand.Rand, pool []rvVal) c08Cond {
 	return c
 }
 
+// c08GenFocused: one condition aimed at one field whose value is known; the condition value is
+// chosen RELATIVE to the span value as coerced by the datatype (equal / just below / just above,
+// in a random representation), so that every (datatype, operator) arm is exercised at its
+// boundary.  One third of all cases.
+func c08GenFocused(r *rand.Rand) c08Input {
+	in := c08Input{Seed: int64(1 + r.Intn(1_000_000)), TraceID: fmt.Sprintf("trace-%d", r.Intn(1000)), Root: -1}
+	sv := c08PickScalar(r, false)
+	dt := []string{"", "string", "int", "float", "bool"}[r.Intn(5)]
+	op := []string{"=", "!=", ">", "<", ">=", "<=", "=", "!=", ">", "<", ">=", "<=", "in", "not-in", "starts-with", "contains", "does-not-contain", "matches"}[r.Intn(18)]
+	repr := func(n int64) rvVal {
+		switch r.Intn(3) {
+		case 0:
+			return rvVal{K: "int", I: n}
+		case 1:
+			return rvVal{K: "f", F: float64(n)}
+		}
+		return rvVal{K: "s", S: strconv.FormatInt(n, 10)}
+	}
+	reprF := func(f float64) rvVal {
+		if f == 0 {
+			f = 0 // no negative zero
+		}
+		switch {
+		case r.Intn(3) == 0:
+			return rvVal{K: "s", S: fmt.Sprintf("%v", f)}
+		case f == math.Trunc(f) && math.Abs(f) < 1<<62 && r.Intn(2) == 0:
+			return rvVal{K: "int", I: int64(f)}
+		}
+		return rvVal{K: "f", F: f}
+	}
+	var cv rvVal
+	gv := sv.goSpan()
+	switch dt {
+	case "int":
+		var n int64
+		ok := true
+		switch t := gv.(type) {
+		case int64:
+			n = t
+		case float64:
+			if math.Abs(t) < 1<<62 {
+				n = int64(t)
+			} else {
+				ok = false
+			}
+		case string:
+			k, err := strconv.ParseInt(t, 10, 64)
+			n, ok = k, err == nil
+		default:
+			ok = false
+		}
+		if ok && n > -1<<62 && n < 1<<62 {
+			cv = repr(n + int64(r.Intn(3)) - 1)
+		} else {
+			cv = c08PickScalar(r, true)
+		}
+	case "float", "":
+		var f float64
+		ok := true
+		switch t := gv.(type) {
+		case int64:
+			f = float64(t)
+		case float64:
+			f = t
+		case string:
+			k, err := strconv.ParseFloat(t, 64)
+			f, ok = k, err == nil && dt == "float"
+		default:
+			ok = false
+		}
+		if ok && math.Abs(f) < 1e300 {
+			switch r.Intn(5) {
+			case 0:
+				cv = reprF(math.Nextafter(f, math.Inf(1)))
+			case 1:
+				cv = reprF(math.Nextafter(f, math.Inf(-1)))
+			case 2:
+				cv = reprF(f + 1)
+			default:
+				cv = reprF(f)
+			}
+		} else if s, isStr := gv.(string); isStr && dt == "" {
+			cv = rvVal{K: "s", S: []string{s, s + "a", "", "a"}[r.Intn(4)]}
+		} else {
+			cv = c08Kin(r, sv)
+		}
+	case "string":
+		s := fmt.Sprintf("%v", gv)
+		switch r.Intn(5) {
+		case 0:
+			cv = rvVal{K: "s", S: s + "0"}
+		case 1:
+			if len(s) > 0 {
+				cv = rvVal{K: "s", S: s[:len(s)-1]}
+			} else {
+				cv = rvVal{K: "s", S: s}
+			}
+		case 2:
+			cv = c08Kin(r, sv)
+		default:
+			cv = rvVal{K: "s", S: s}
+		}
+	default: // bool
+		cv = []rvVal{{K: "b", B: true}, {K: "b", B: false}, {K: "s", S: "true"}, {K: "s", S: "1"}, {K: "int", I: 1}, {K: "int", I: 0}, {K: "s", S: "yes"}, {K: "f", F: 1}}[r.Intn(8)]
+	}
+	if op == "matches" {
+		cv = rvVal{K: "s", S: c08Patterns[r.Intn(len(c08Patterns))]}
+	}
+	if op == "in" || op == "not-in" {
+		l := rvVal{K: "list", L: []rvVal{}}
+		for k, n := 0, r.Intn(3); k < n; k++ {
+			l.L = append(l.L, c08PickScalar(r, true))
+		}
+		l.L = append(l.L, cv)
+		if r.Intn(2) == 0 {
+			l.L[0], l.L[len(l.L)-1] = l.L[len(l.L)-1], l.L[0]
+		}
+		cv = l
+	}
+	c := c08Cond{Op: op, Dt: dt, Val: cv}
+	other := c08PickScalar(r, false)
+	switch r.Intn(4) {
+	case 0: // plain field
+		c.Field = "a"
+		in.Spans = [][]c08Field{{{K: "a", V: sv}}}
+	case 1: // first-present among several Fields
+		c.Fields = []string{"zz", "a", "b"}
+		in.Spans = [][]c08Field{{{K: "a", V: sv}, {K: "b", V: other}}}
+	case 2: // root prefix; the evaluated span carries another value
+		c.Field = "root.a"
+		in.Spans = [][]c08Field{{{K: "a", V: other}}, {{K: "a", V: sv}}}
+		in.Root = 1
+	default: // several spans
+		c.Field = "a"
+		in.Spans = [][]c08Field{{{K: "b", V: other}}, {{K: "a", V: sv}}}
+		in.Root = r.Intn(3) - 1
+	}
+	ru := c08Rule{Name: "focus", Rate: []int{1, 1, 3}[r.Intn(3)], Drop: r.Intn(2) == 0, Scope: []string{"", "span", "trace"}[r.Intn(3)], Conds: []c08Cond{c}}
+	in.Rules = []c08Rule{ru}
+	return in
+}
+
 func c08Gen(r *rand.Rand, tier string, i int) any {
+	if i%3 == 1 {
+		return c08GenFocused(r)
+	}
 	in := c08Input{Seed: int64(1 + r.Intn(1_000_000)), TraceID: fmt.Sprintf("trace-%d", r.Intn(1000))}
 	nspans := 1 + r.Intn(4)
-	var pool []rvVal
+	var pool []c08Pooled
 	for s := 0; s < nspans; s++ {
 		var sp []c08Field
 		for _, f := range c08SpanFields {
 			if r.Intn(100) < 45 {
 				v := c08PickScalar(r, false)
 				sp = append(sp, c08Field{K: f, V: v})
-				pool = append(pool, v)
+				pool = append(pool, c08Pooled{F: f, V: v})
 			}
 		}
 		in.Spans = append(in.Spans, sp)
